@@ -218,6 +218,9 @@ impl Selector {
 pub(crate) enum Display {
     /// display: none
     None,
+    /// display: any other value (the element is shown); needed so that such a
+    /// declaration can win the cascade over a `display: none`.
+    Other,
     #[cfg(feature = "css_ext")]
     /// Show node as HTML DOM
     ExtRawDom,
@@ -257,6 +260,8 @@ impl std::fmt::Display for StyleDecl {
             Style::BgColour(col) => write!(f, "background-color: {}", col)?,
             #[cfg(feature = "css")]
             Style::Display(Display::None) => write!(f, "display: none")?,
+            #[cfg(feature = "css")]
+            Style::Display(Display::Other) => write!(f, "display: block")?,
             #[cfg(feature = "css_ext")]
             Style::Display(Display::ExtRawDom) => write!(f, "display: x-raw-dom")?,
             #[cfg(feature = "css")]
@@ -373,7 +378,12 @@ fn styles_from_properties(decls: &[parser::Declaration]) -> Vec<StyleDecl> {
                         importance: decl.important,
                     });
                 }
-                _ => (),
+                parser::Display::Other => {
+                    styles.push(StyleDecl {
+                        style: Style::Display(Display::Other),
+                        importance: decl.important,
+                    });
+                }
             },
             parser::Decl::WhiteSpace { value } => {
                 styles.push(StyleDecl {
@@ -584,7 +594,6 @@ impl StyleData {
             }
             #[cfg(feature = "css")]
             Style::Display(disp) => {
-                // We don't have a "not DisplayNone" - we might need to fix this.
                 result_target
                     .display
                     .maybe_update(important, origin, specificity, disp);
